@@ -514,6 +514,10 @@ def r84(ctx, res, stale=frozenset()):
                             and len(g_.generators) == 1 and isinstance(call_, ast.Call) and isinstance(call_.func, ast.Name) \
                             and call_.func.id in ("sum", "frozenset", "set") and call_.args and call_.args[0] is g_:
                         inline_agg.add(x.attr)
+                    elif isinstance(p_, ast.Call) and isinstance(p_.func, ast.Name) and p_.func.id == "map" and len(p_.args) == 2 and p_.args[1] is x \
+                            and isinstance(par_.get(id(p_)), ast.Call) and isinstance(par_[id(p_)].func, ast.Name) \
+                            and par_[id(p_)].func.id in ("sum", "frozenset", "set") and par_[id(p_)].args and par_[id(p_)].args[0] is p_:
+                        inline_agg.add(x.attr)  # sum(map(hash, self.points))
                     else:
                         still.append(c_)
         if not [o_ for o_ in ordered if not isinstance(o_, ast.Attribute)] or True:
@@ -554,7 +558,9 @@ def r81_r83(ctx, res):
                 if fname_ == "a number":
                     raise AnalysisError("%s.__eq__ was not evaluated on a foreign type" % cname)
                 continue
-            rets = [r for r in walk_local(m.node) if isinstance(r, ast.Return) and id(r) in sm.reached]
+            from ..astutil import identity_fast_path_returns
+            fast_ = identity_fast_path_returns(m.node, m.params[0], m.params[1]) if len(m.params) >= 2 else set()
+            rets = [r for r in walk_local(m.node) if isinstance(r, ast.Return) and id(r) in sm.reached and id(r) not in fast_]
             ok = bool(rets) and all(isinstance(r.value, ast.Constant) and r.value.value is False for r in rets) and not sm.raises
             res.ob("R8.2", m.where(), "%s.__eq__(%s)" % (cname, fname_), ok,
                    "returns False" if ok else "reaches %s" % [txt(r)[:40] for r in rets])
